@@ -123,6 +123,27 @@ void harness(void)
   for (size_t i = 0; i < SCRATCH_NONDET; i++) vf_scratch[i] = nondet_uchar();
 #endif
 
+#ifdef SYM_OUT_SIZE
+  /* the method's own contract is for ANY out_size: here it is symbolic and the buffer is
+     the last out_size bytes of the object (exact fit), so the length arithmetic that
+     do_crypt only ever exercises at 384 is checked at every size with short settings */
+  size_t in_osize = nondet_size_t();
+  __CPROVER_assume(in_osize <= sizeof vf_output);
+  char *outp = vf_output + (sizeof vf_output - in_osize);
+  if (in_osize >= 3) { outp[0] = '*'; outp[1] = '0'; outp[2] = 0; }
+  errno = 0;
+  METHOD_FN(phrase, in_plen, setting, set_size, (uint8_t *)outp, in_osize, vf_scratch, sizeof vf_scratch);
+  if (in_osize >= 3 && outp[0] != '*') {
+    _Bool term = 0;
+    for (size_t i = 0; i < sizeof vf_output; i++) if (i < in_osize && outp[i] == 0) term = 1;
+    VF_ASSERT(term, "C04: result NUL-terminated inside out_size for every out_size");
+    VF_WITNESS("success at symbolic out_size");
+  } else {
+    if (in_osize >= 3) VF_ASSERT(errno != 0, "C05: failure at a small out_size sets errno");
+    VF_WITNESS("refused at symbolic out_size");
+  }
+  return;
+#endif
   errno = 0;
   METHOD_FN(phrase, in_plen, setting, set_size, (uint8_t *)vf_output, sizeof vf_output,
             vf_scratch, sizeof vf_scratch);
